@@ -83,6 +83,7 @@ static bool ledger_ok(const char* what, int held_before, int held_after_expected
         ok = false;
         char key[128]; snprintf(key, sizeof key, pv_ledger_live() > held_after_expected ? "C15/leak/%s" : "C15/lost-block/%s", what);
         pv_violation(key, "%s: %d blocks live, expected %d (before the call: %d)", what, pv_ledger_live(), held_after_expected, held_before);
+        if (pv_ledger_live() > held_after_expected) pv_ledger_reclaim(held_after_expected);
     }
     return ok;
 }
